@@ -48,6 +48,8 @@ def run_cell(prop, cell, opts):
     sample_p = opts.get('sample_p', 0.02)
     max_w = opts.get('max_witnesses', 6)
     ctx = core.Ctx(max_decisions=opts.get('max_decisions', 20000))
+    if cell.get('_shard'):
+        ctx.shard = tuple(cell['_shard'])
     core.set_current(ctx)
     per_label = {}
     try:
@@ -64,8 +66,11 @@ def run_cell(prop, cell, opts):
             rt.B64_MEMO.clear()
             nv = len(ctx.violations)
             aborted = False
+            skipped = False
             try:
                 mod.run(cell)
+            except core.ShardSkip:
+                aborted = skipped = True
             except core.PathAbort:
                 aborted = True
             except core.Unsupported as e:
@@ -121,7 +126,7 @@ def run_cell(prop, cell, opts):
                         res['witnesses'].append(w)
                 except core.Unsupported:
                     pass
-            ctx.end(aborted)
+            ctx.end(aborted, skipped)
         res['exhaustive'] = ctx.exhausted and not res['inconclusive']
     except core.EngineError as e:
         res['error'] = 'engine: %s' % (e,)
